@@ -7,6 +7,7 @@ open CffiVerif CffiVerif.Proto
       `ok <value>` | `err FFIError`
     `struct <check 0/1> <union 0/1> <packed 0/1> <totalsize> <totalalign> <csize:calign:koffset:ksize>…`:
       `ok <size> <align> <custom 0/1> <offset>…` | `err FFIError` | `err TypeError`
+    `structf <s->flags of the generated table> <totalsize> <totalalign> <fields>…`: the same through `sflagsOf`
     `natural <union> <packed> <csize:calign:0:0>…`: `ok <size> <align> <offset>…` -/
 def parseFld (s : String) : Option StructCheck.Fld :=
   match (s.splitOn ":").map int? with
@@ -38,6 +39,14 @@ def step (u : Unit) : List String → Unit × String
           | .error .ffiError => "err FFIError"
           | .error .typeError => "err TypeError")
     | _, _, _, _, _, _ => (u, "bad-op")
+  | "structf" :: flags :: tot :: al :: flds =>
+    match nat? flags, int? tot, int? al, flds.mapM parseFld with
+    | some flags, some tot, some al, some fs =>
+      (u, match StructCheck.realiseTable flags fs tot al with
+          | .ok L => s!"ok {L.size} {L.align} {if L.custom then 1 else 0} {ints L.offsets}"
+          | .error .ffiError => "err FFIError"
+          | .error .typeError => "err TypeError")
+    | _, _, _, _ => (u, "bad-op")
   | "natural" :: un :: pk :: flds =>
     match bool? un, bool? pk, flds.mapM parseFld with
     | some un, some pk, some fs =>
